@@ -190,6 +190,22 @@ def drive(run, gen_name, t, expect_reject, source, dir_state, root, probe=None, 
     if probe is not None and probe[1] == "late":
         # the manager exists before the rejecting check is registered on its verifier
         mgr = GeneratorManager(verifier)
+    if before is not None and len(before) == 3:
+        # history: ONE long-lived manager that first gets ANOTHER schema, which a check rejects; whatever the
+        # verifier keeps from that failed run must not reach the judged call
+        t_bad, first_gen, _mode = before
+        case["rejected_before"] = t_bad
+        case["first_generator"] = first_gen
+        mgr = GeneratorManager(verifier)
+        pre_dir = os.path.join(root, "pre")
+        shutil.rmtree(pre_dir, ignore_errors=True)
+        try:
+            mgr.generate(first_gen, None, None, c09.build(t_bad), pre_dir)
+        except Exception:
+            pass
+        shutil.rmtree(pre_dir, ignore_errors=True)
+        run.count("judged_after_a_rejected_schema_on_the_same_manager")
+        before = None
     if before is not None:
         # history: ONE manager, verifier and schema object; the schema is accepted and generated from
         # once (generator before[1]), then edited in place into the ill-formed tree t
@@ -451,6 +467,14 @@ def run(run):
                 drive(run, g, tt, True, "general/" + rule, rr.choice(DIR_STATES), root, known_names=names)
                 if rr.random() < 0.5:
                     drive(run, g, tt, True, "edited-after-accept/" + rule, rr.choice(DIR_STATES), root, known_names=names, before=(t, rr.choice(GENERATORS)))
+            # (b') a long-lived manager: a rejected schema first, then a well-formed one (must be generated)
+            # and then another ill-formed one (must be refused)
+            bad = next((c09.inject(rr, t, rule) for rule in rr.sample(c09.RULES[1:], len(c09.RULES) - 1) if c09.inject(rr, t, rule) is not None), None)
+            if bad is not None:
+                drive(run, g, t, False, "none", rr.choice(DIR_STATES), root, known_names=names, before=(bad, rr.choice(GENERATORS), "rejected-first"))
+                bad2 = c09.inject(rr, t, rr.choice(c09.RULES[1:]))
+                if bad2 is not None:
+                    drive(run, g, bad2, True, "general/after-a-rejected-schema", rr.choice(DIR_STATES), root, known_names=names, before=(bad, rr.choice(GENERATORS), "rejected-first"))
             # (c) plug-in rules
             if g in ("dbc", "can_c"):
                 drive(run, g, inject_plugin(rr, t, "unknown-struct"), True, "plugin/unknown-struct", rr.choice(DIR_STATES), root, known_names=names)
@@ -484,7 +508,7 @@ def replay(run, case):
         if src.startswith("synthetic/"):
             _, cat, pos = src.split("/")
             probe = (cat, pos)
-        before = (case["tree_before"], case["first_generator"]) if "tree_before" in case else None
+        before = (case["tree_before"], case["first_generator"]) if "tree_before" in case else ((case["rejected_before"], case["first_generator"], "rejected-first") if "rejected_before" in case else None)
         drive(run, case["generator"], case["tree"], src != "none", src, case["dir_state"], root, probe=probe, before=before)
     finally:
         shutil.rmtree(root, ignore_errors=True)
